@@ -41,7 +41,7 @@ MANIFEST = dict(
          'when the directory is created.',
 )
 
-IMPORTS = ['SV.SM.AtomicWriter', 'SV.Gen.AtomicWriter_gen', 'Coq.Lists.List']
+IMPORTS = ['SV.SM.AtomicWriter', 'SV.SM.AtomicExit', 'SV.Gen.AtomicWriter_gen', 'Coq.Lists.List', 'Coq.Bool.Bool']
 PRE = 'Import ListNotations.\n'
 
 OLD_TOK = 100      # File k had content [OLD_TOK + k] before
@@ -659,11 +659,14 @@ def _single_scenario(ck0: Ck, work: Path, si: int, sc: dict, do_model: bool, cas
                     ck.obligation(name, False, what.get('why', 'operation outside the model'))
                     ck.tie_broken.append('correspondence AtomicWriter trace: ' + what.get('why', ''))
                 return
-            if pre_fail:
-                cut = 0       # the writer is never entered: the model performs no step at all
-            coq = (f'corr_case aw_cfg {nm.coq_init()} {scen_coq} {cut} {coq_list(map(str, faults))} '
+            # pre_ok = false: BSP.save's rebuild phase raises, the writer is never entered (save_alone in the model)
+            coq = (f'corr_case_t aw_proto {"false" if pre_fail else "true"} {nm.coq_init()} {scen_coq} {cut} '
+                   f'{coq_list(map(str, faults))} '
                    f'{coq_list(nm.probe_names(max_tmp))}')
+            if pre_fail:
+                real_committed = None       # the writer never starts: there is no outcome of a `with` to compare
             cases.append(dict(coq=coq, events=real_events, listing=real_listing, committed=real_committed, nm=nm,
+                              replaced=any(e[0] == 4 and e[3] == 0 for e in real_events),
                               wmap=wmap, max_tmp=max_tmp, what=what, cmp_tmp=cmp_tmp_content, sc=sc))
 
         if ev0 is None and not patho:
@@ -774,9 +777,11 @@ def eval_cases(ck: Ck, cases: list[dict], tag: str) -> None:
             diffs = []
             if c['events'] is not None and events != c['events']:
                 diffs.append({'events_model': events, 'events_real': c['events']})
-            if c['committed'] is not None:
-                if (pc[0] == 1) != c['committed']:
-                    diffs.append({'model_pc': pc, 'real_committed': c['committed']})
+            if c['committed'] is not None:        # a finished run (not a kill): outcome of the `with` statement
+                if (pc[0] == 1) != c['replaced']:
+                    diffs.append({'model_pc': pc, 'real_rename_succeeded': c['replaced']})
+                if (pc[2] == 1) != (not c['committed']):
+                    diffs.append({'model_pc': pc, 'model_raises': pc[2] == 1, 'real_returned_normally': c['committed']})
             for b, enc in zip(nm.probe_bases(c['max_tmp']), probes):
                 toks = opt_content(enc)
                 real = c['listing'].get(os.path.join(nm.dir, b) if nm.dir else b)
@@ -1008,7 +1013,7 @@ def two_writer_campaign(ck: Ck, do_model: bool) -> None:
                         break
                     evs.append([w] + e[0])
                 max_tmp = 4
-                coq = (f'corr_case2 aw_cfg {nm.coq_init()} {scen[0]} {scen[1]} '
+                coq = (f'corr_case2_t aw_proto {nm.coq_init()} {scen[0]} {scen[1]} '
                        f'{coq_list(f"({"true" if w else "false"}, false)" for w in ex)} {coq_list(nm.probe_names(max_tmp))}')
                 cases.append(dict(coq=coq, events=evs if okc else None, listing=lst, nm=nm, wmap=wmap, max_tmp=max_tmp,
                                   what={'run': 'two writers', 'pair': tag, 'schedule': ex},
@@ -1041,8 +1046,8 @@ def eval_cases2(ck: Ck, cases: list[dict]) -> None:
             diffs = []
             if c['events'] is None or events != c['events']:
                 diffs.append({'events_model': events, 'events_real': c['events']})
-            if [(pc1[0] == 1), (pc2[0] == 1)] != c['committed']:
-                diffs.append({'model_pcs': [pc1, pc2], 'real_committed': c['committed']})
+            if [(pc1[0] == 1), (pc2[0] == 1)] != c['committed'] or [(pc1[2] == 0), (pc2[2] == 0)] != c['committed']:
+                diffs.append({'model_pcs': [pc1, pc2], 'real_returned_normally': c['committed']})
             for b, enc in zip(nm.probe_bases(c['max_tmp']), probes):
                 exp = nm.expect_bytes(opt_content(enc), c['wmap'])
                 real = c['listing'].get(b)
@@ -1086,14 +1091,30 @@ def run(ck: Ck) -> None:
     built = ok_t and ck.build(['Props/C12.vo', 'Gen/AtomicWriter_gen.vo'])
     if built:
         ck.theorems('Props/C12.v')
+        ok2, fl2 = 'x_ok aw_proto', 'x_exc aw_proto'
         ck.instance_obligations(IMPORTS, {
+            # hypotheses of the theorems in Props/C12.v, for the protocol generated from today's source
+            'proto_ok': 'proto_ok aw_proto',
+            'proto_safe': 'proto_safe aw_proto',
+            'exit_protocol_in_model_family': 'in_family aw_proto',
+            # the same, flag by flag (flags are computed in the kernel from the decision trees of the program)
             'temp_opened_exclusively_with_retry': 'c_excl aw_cfg',
             'body_exception_discards_temp': 'is_discard (c_on_exc aw_cfg)',
             'success_commits_by_replace': 'is_commit (c_on_ok aw_cfg)',
             'failing_close_still_unlinks_temp': 'c_close_guard aw_cfg',
             'failing_replace_still_unlinks_temp': 'c_replace_guard aw_cfg',
             'cfg_ok': 'cfg_ok aw_cfg',
-            'temp_closed_before_replace': 'aw_close_first',
+            # order of operations / exception flow, judged on the decision trees directly (independent of the family)
+            'exit_no_unmodelled_step': f'no_bad ({ok2}) && no_bad ({fl2})',
+            'temp_closed_before_replace': f'closes_first ({ok2}) && closes_first ({fl2})',
+            'exit_closes_temp_once': f'no_close (close_ok ({ok2})) && no_close (close_fl ({ok2})) && '
+                                     f'no_close (close_ok ({fl2})) && no_close (close_fl ({fl2}))',
+            'exit_failing_close_never_renames': f'no_replace (close_fl ({ok2})) && no_replace (close_fl ({fl2}))',
+            'exit_body_exception_never_renames': f'no_replace ({fl2})',
+            'exit_success_renames_after_close': f'success_commits ({ok2})',
+            'exit_every_failure_path_unlinks_temp': f'cleans ({ok2}) false && cleans ({fl2}) false',
+            'exit_never_swallows_an_exception': f'propagates ({ok2}) false && propagates ({fl2}) true',
+            'exit_success_returns_normally': f'ok_path_returns ({ok2})',
             'temp_is_sibling_of_destination': 'aw_tmp_sibling',
             'bsp_module_never_modifies_files_directly': 'match bsp_fs_write_sites with nil => true | _ => false end',
             'bsp_save_writes_only_through_the_handle': 'forallb snd bsp_save_writes',
@@ -1137,29 +1158,34 @@ def _campaigns(ck: Ck, built: bool) -> None:
     two_writer_campaign(ck, bool(built))
     stage['two'] = round(time.time() - t1, 1)
     keys = {v['key'].removeprefix('bsp-save:') for v in ck.violations}
-    if any(k.startswith('temp-left-after-close-fault') or k.startswith('temp-left-after-flush-fault') for k in keys):
-        ck.explain('instance:failing_close_still_unlinks_temp')
-    if any(k.startswith('temp-left-after-replace-fault') for k in keys):
-        ck.explain('instance:failing_replace_still_unlinks_temp')
-    if any(k.startswith('temp-left-after-') for k in keys):
-        ck.explain('instance:cfg_ok')
-    if any(k.startswith('two-writers:') or 'mixture' in k or k.startswith('dest-changed') or k.startswith('new-content')
-           for k in keys):
-        for nme in ('instance:temp_opened_exclusively_with_retry', 'instance:body_exception_discards_temp',
-                    'instance:success_commits_by_replace', 'instance:cfg_ok', 'instance:temp_closed_before_replace',
-                    'correspondence:'):
-            ck.explain(nme)
-    if keys:
-        ck.explain('correspondence:')
-    if ck.extra.get('bsp_violations'):
-        ck.explain('instance:bsp_')
-        ck.explain('translate:')
-    if any('mixture' in k or k.startswith(('dest-changed', 'new-content', 'temp-left', 'temp-file-outside', 'wrong-content',
-                                            'two-writers:', 'foreign-file'))
-           for k in keys):
-        ck.explain('translate:')
-    if 'temp-file-outside-destination-directory' in keys:
-        ck.explain('instance:temp_is_sibling_of_destination')
+    # which failed obligations a concrete violation (with a replay) explains
+    temp_left = any(k.startswith(('temp-left-after-', 'two-writers:temp-left', 'unexpected-files')) for k in keys)
+    dest_bad = any('mixture' in k or k.startswith(('dest-changed', 'new-content', 'old-content', 'wrong-content',
+                                                   'two-writers:', 'foreign-file', 'bad-content', 'dest-named'))
+                   for k in keys)
+    swallowed = any(k.startswith(('unexpected-outcome', 'bad-content-after-swallowed', 'unexpected-exception')) for k in keys)
+    table = [
+        (any(k.startswith(('temp-left-after-close-fault', 'temp-left-after-flush-fault')) for k in keys),
+         ['instance:failing_close_still_unlinks_temp']),
+        (any(k.startswith('temp-left-after-replace-fault') for k in keys), ['instance:failing_replace_still_unlinks_temp']),
+        (temp_left, ['instance:cfg_ok', 'instance:proto_ok', 'instance:exit_protocol_in_model_family',
+                     'instance:exit_every_failure_path_unlinks_temp', 'instance:body_exception_discards_temp']),
+        (dest_bad, ['instance:temp_opened_exclusively_with_retry', 'instance:body_exception_discards_temp',
+                    'instance:success_commits_by_replace', 'instance:cfg_ok', 'instance:proto_', 'instance:exit_',
+                    'instance:temp_closed_before_replace', 'instance:failing_']),
+        (swallowed, ['instance:exit_never_swallows_an_exception', 'instance:exit_success_returns_normally',
+                     'instance:exit_protocol_in_model_family', 'instance:proto_', 'instance:cfg_ok',
+                     'instance:success_commits_by_replace', 'instance:exit_success_renames_after_close',
+                     'instance:exit_no_unmodelled_step']),
+        (bool(keys), ['correspondence:']),
+        (temp_left or dest_bad or swallowed or 'temp-file-outside-destination-directory' in keys, ['translate:']),
+        ('temp-file-outside-destination-directory' in keys, ['instance:temp_is_sibling_of_destination']),
+        (bool(ck.extra.get('bsp_violations')), ['instance:bsp_', 'translate:']),
+    ]
+    for cond, names in table:
+        if cond:
+            for nme in names:
+                ck.explain(nme)
 
 
 def single_campaign_bsp(ck: Ck, bscs: list[dict], do_model: bool) -> None:
